@@ -162,8 +162,10 @@ def offsets(P, E, chk):
         fm = L.lin(seedexp)
         if fm is None:
             return None
-        if fm[0] == {base: 1}:
-            return fm[1]
+        bases = base if isinstance(base, (set, frozenset, list, tuple)) else (base,)
+        for b_ in bases:
+            if fm[0] == {b_: 1}:
+                return fm[1]
         return None
     sites = [
         # (unit, function, kind, buffer selector, challenge expression, expected offset, description)
@@ -178,6 +180,13 @@ def offsets(P, E, chk):
         f = P.func(fname, unit)
         an = E.analysis(f)
         found = 0
+        if base.startswith("users["):
+            # the session whose challenge counts is the one this function marks as logged in (the index may be a
+            # helper's own variable after inlining)
+            idx = {pp(sk(sk(sk(x["a"][0])["a"][0])["a"][1])) for bb, x in f.all_nodes()
+                   if x.get("k") == "Bin" and x["op"] == "=" and sk(x["a"][0]).get("k") == "Mem" and sk(x["a"][0])["field"] == "authenticated"
+                   and cval(sk(x["a"][1])) == 1 and sk(sk(x["a"][0])["a"][0]).get("k") == "Sub"}
+            base = tuple(sorted({base} | {"users[%s].seed" % i_ for i_ in idx}))
         for b, c in f.calls(kind):
             args = c.get("a", [])
             cand = []
@@ -210,8 +219,8 @@ def offsets(P, E, chk):
                 continue        # a 16-byte memcmp that has nothing to do with login
             found += 1
             chk.site(r2, f, ir.loc(c), "%s: %s" % (desc, pp(c)[:50]), not bad,
-                     "digest of login_calculate(.., password, %s%+d) computed in this event" % (base, want) if not bad else
-                     "on some path the digest used here is not the output of login_calculate(.., password, %s%+d) computed in this event" % (base, want),
+                     "digest of login_calculate(.., password, %s%+d) computed in this event" % (base if isinstance(base, str) else base[0], want) if not bad else
+                     "on some path the digest used here is not the output of login_calculate(.., password, %s%+d) computed in this event" % (base if isinstance(base, str) else base[0], want),
                      witness={"facts": C.fmt_d(bad[0], 20)} if bad else None)
         if found == 0:
             raise AnalysisBroken("C19.R2: site not found: %s" % desc)
